@@ -22,7 +22,7 @@ CLAIMS = {
  "C08": ("model_checking", "MC_hist families wb and vary: validation by 304 (header updates, Age, missing Date) or full reply, foreground and stale-while-revalidate background, two variants; FreshenedOnce / ReplacedNeverServed / OtherVariantsKept monitors against the ledger's expectation of what is stored", "7 C08", "TLA+ model checking (TLC) + behaviour replay + TLC trace validation"),
  "C10": ("model_checking", "MC_faults: fault placement (each store operation of an exchange failing, singly and in pairs) is a choice of the model and enumerated exhaustively, combined with origin failures during validation / background revalidation; replay varies the failure kind and the logger; crashes and deadlocks of the real code are violations; Total / ErrorOnlyFromOrigin / OriginWinsOnStoreFault / LoggerIndependent monitors", "7 C10", "TLA+ model checking (TLC) with fault actions + fault replay + TLC trace validation"),
  "C12": ("model_checking", "meaning-level model: the specification's state holds directive meanings only; every sampled MC_decide behaviour is executed in the canonical spelling and 6 rewritten spellings and TLC compares the abstract observation sequences (SpellingInvariant), each run also satisfying all other monitors; numbers >= 2^31 are rendered with spellings up to 10^30", "7 C12", "TLA+ model checking (TLC) + spelling-group replay + TLC trace validation (canonical run of the code as oracle)"),
- "C16": ("exploration", "free-running concurrent requests on one transport (same/different URIs and variants, unsafe methods, background revalidations in flight) inside the synctest bubble with the Go race detector as sensor; the ownership monitors (response and request never written after return) and the order-independent sequential monitors are evaluated by TLC on every reply", "7 C16", "concurrent replay under the Go race detector + TLC trace validation of ownership and sequential monitors"),
+ "C16": ("model_checking", "MC_conc: TLC enumerates every interleaving of two concurrent exchanges (and the background revalidation) at the granularity of store operations and origin calls against the ownership and order-independent monitors; the interleavings are exported and replayed by gating the goroutines of the real transport at those operations, plus free-running concurrent rounds, all under the Go race detector (the sensor below operation granularity); TLC validates the recorded traces", "7 C16", "TLA+ model checking (TLC) of interleavings + gate-scheduled replay under the race detector + TLC trace validation"),
  "C19": ("model_checking", "MC_hist families vary and inval plus periodic histories repeated far beyond the bound; the Bounded monitor compares key count and index length with B = 4 * pairs * (vary sets + 1) + 8 once more than 3B requests were made; InvalidationCleans after unsafe requests", "7 C19", "TLA+ model checking (TLC) + behaviour replay + TLC trace validation"),
  "C20": ("model_checking", "MC_swr: background latency 0 .. beyond the timeout or never, outcome 304 / full / error / 503, every timeout setting, caller cancellation before / after / never; replayed on the virtual clock; SwrTiming monitor (foreground elapsed 0 s, exactly one conditional background request, cancelled at the effective timeout, no goroutine left)", "7 C20", "TLA+ model checking (TLC) + behaviour replay + TLC trace validation"),
  "C14": ("model_checking", "MC_kv: TLC enumerates every sequence of Set / Get / Delete / Keys / Reopen up to the stated depth over keys that are prefixes of each other, with the outcome the reference map KVStore.tla prescribes; the harness renders the keys adversarially and replays on every backend (partly through the expapi handlers); TraceKV.tla applies every recorded operation to the reference map and judges its outcome; FsLayout.tla model-checks the file-name design (directory marker) at model scale", "7 C14", "TLA+ model checking (TLC) of KVStore / FsLayout + operation-sequence replay + TLC trace validation against the reference map"),
